@@ -124,6 +124,11 @@ def cases(tier):
     dd = [("int32_t", "a", "input"), ("int32_t", "t", "local"), ("int32_t", "y", "local"), ("int32_t", "x", "local"), ("int64_t", "r", "local")]
     for st in ["t = 1; y = 2; x = 3; r = clob(a); r = r + t * 1000 + y * 100 + x * 10;"]:
         out.append((rts, P(dd, st, ["r", "t", "y", "x"]), ("name-clash", st)))
+    # routine names are identifiers: upper-case letters, digits and underscores, and names that differ only in case
+    rts = [R("fSatAdd8", "uint32_t", ["uint32_t x"], "{ return x + 8; }"), R("fsatadd8", "uint32_t", ["uint32_t x"], "{ return x + 100; }"),
+           R("Twice_X9", "uint32_t", ["uint32_t x"], "{ return fSatAdd8(x) + fsatadd8(x) + clz32(x); }"), R("_q", "int32_t", ["int32_t x"], "{ return -x; }")]
+    for st in ["r = fSatAdd8(a);", "r = fsatadd8(a);", "r = fSatAdd8(a) * 1000 + fsatadd8(a);", "r = Twice_X9(a);", "r = Twice_X9(fSatAdd8(a)) + _q(b);", "r = _q(_q(a) + 1);"]:
+        out.append((rts, P(d, st, ["r"]), ("names", st)))
     # bundled routines at call sites with several calls
     for st in ["r = clz32(a) + clz32(b);", "r = clo32(a) > clo32(~a) ? clo32(a) : clo32(~a);", "r = fbrev(a) + revbit32(b) + clz64(a);", "r = conv_round(a, 3) + conv_round(b, 1);", "r = clz32(clo32(a));", "r = clz32(a) + clz32(b) + clz32(a + b) + clz32(a - b);"]:
         out.append(([], P(d, st, ["r"]), ("bundled", st)))
